@@ -226,5 +226,7 @@ package types
 //@ func GetTopicCat(name string) (cat TopicCat)
 //@   requires [C13] known_prefix: len(name) >= 3 && (hasPrefix(name, "usr") || hasPrefix(name, "p2p") || hasPrefix(name, "grp") || hasPrefix(name, "chn") || hasPrefix(name, "fnd") || hasPrefix(name, "sys"))
 //@   modifies nothing
+//@   ensures [C06,C07,C13] p2p_iff_prefix: (cat == TopicCatP2P) == hasPrefix(name, "p2p")
+//@   ensures [C06,C07,C13] grp_iff_prefix: (cat == TopicCatGrp) == (hasPrefix(name, "grp") || hasPrefix(name, "chn"))
 //@   nopanic
 //@   safe
